@@ -38,12 +38,13 @@ def chooseBounding (user : Option GateDefChoice) (dflt : String) (c : Circuit) :
   | some (.name n) => (findNative c n).getD (freshDef n)
   | none => (findNative c dflt).getD (freshDef dflt)
 
-/-- `_validate_count(count, …)` raises: a float, or a constant / parameter of kind FLOAT -/
+/-- `_validate_count(count, …)` raises: the count is neither an `int` nor a constant / parameter of kind INT or
+NONE (a float, a FLOAT constant, a qubit or register parameter kind, a register, a qubit, `None` are all rejected) -/
 def badCount : Val → Bool
-  | .flt _ => true
-  | .const _ v => GateDef.constKind v == .float
-  | .param _ k => k == .float
-  | _ => false
+  | .int _ => false
+  | .const _ v => !(GateDef.constKind v == .int || GateDef.constKind v == .none)
+  | .param _ k => !(k == .int || k == .none)
+  | _ => true
 
 /-- `LoopStatement(iterations, statements)` -/
 def mkLoop (count : Val) (body : Stmt) : M Stmt :=
